@@ -433,6 +433,24 @@ fn ok_suite(suite: &str, a: &[&str]) -> Option<String> {
             let l2 = Line::new(pt(a[4], a[5]), pt(a[6], a[7]));
             verdict(|| embedded_graphics::primitives::verif_hooks::line_intersection(l1, l2))
         }
+        "ok_index" => {
+            let k = us(a[0]);
+            verdict(|| (Point::new(3, 4)[k], Size::new(5, 6)[k]))
+        }
+        "ok_from_slice" => {
+            let v: Vec<Point> = (0..us(a[0])).map(|k| Point::new(k as i32, 1)).collect();
+            verdict(|| Triangle::from_slice(&v))
+        }
+        "ok_new_const" => {
+            let data = vec![0u8; us(a[3])];
+            let sz = Size::new(u(a[0]), u(a[1]));
+            match a[2] {
+                "1" => verdict(|| ImageRaw::<BinaryColor>::new_const(&data, sz)),
+                "8" => verdict(|| ImageRaw::<Gray8>::new_const(&data, sz)),
+                "16" => verdict(|| ImageRaw::<Rgb565>::new_const(&data, sz)),
+                _ => verdict(|| ImageRaw::<Rgb888>::new_const(&data, sz)),
+            }
+        }
         "ok_extents" => {
             let l = Line::new(pt(a[0], a[1]), pt(a[2], a[3]));
             verdict(|| embedded_graphics::primitives::verif_hooks::line_extents(l, u(a[4]), a[5].parse::<u8>().unwrap()))
